@@ -23,6 +23,8 @@ pub struct L1Cfg {
     pub flood: bool,
     /// full alphabet (all certificate classes / payloads) or the reduced one
     pub full: bool,
+    /// minimal alphabet (one certificate class per kind and view) for the deep pass
+    pub narrow: bool,
     pub max_states: usize,
     pub deadline: std::time::Instant,
     pub seed: u64,
@@ -92,10 +94,14 @@ pub fn key_of_local(w: &World, l: &Local) -> u64 {
     let idx = |k: &validator::PublicKey| w.c.keys.iter().position(|x| x.public() == *k).map(|i| i as i32).unwrap_or(-1);
     let snap = |s: &zksync_consensus_bft::verif::Snapshot| {
         let props: Vec<(u64, Vec<u64>)> = s.proposals.iter().map(|(n, v)| (n.0, { let mut x: Vec<u64> = v.iter().map(|p| bftmsgs::ph(&p.hash())).collect(); x.sort(); x })).collect();
-        let cv: Vec<(i32, u64)> = { let mut x: Vec<_> = s.commit_views_cache.iter().map(|(k, v)| (idx(k), v.0)).collect(); x.sort(); x };
-        let tv: Vec<(i32, u64)> = { let mut x: Vec<_> = s.timeout_views_cache.iter().map(|(k, v)| (idx(k), v.0)).collect(); x.sort(); x };
-        let cq: Vec<(u64, Vec<(AVote, Vec<bool>)>)> = s.commit_qcs_cache.iter().map(|(v, m)| (v.0, { let mut x: Vec<_> = m.iter().map(|(k, q)| (avote(k), q.signers.0.iter().collect::<Vec<bool>>())).collect(); x.sort(); x })).collect();
-        let tq: Vec<(u64, bftmsgs::ATqc)> = s.timeout_qcs_cache.iter().map(|(v, q)| (v.0, atqc(q))).collect();
+        // Entries for views below the current one are dead: votes for those views are refused as
+        // `Old` before the caches are consulted, and a cached view below the current one never
+        // makes a newer vote a duplicate. Dropping them merges only states with identical futures.
+        let cur = s.view_number.0;
+        let cv: Vec<(i32, u64)> = { let mut x: Vec<_> = s.commit_views_cache.iter().filter(|(_, v)| v.0 >= cur).map(|(k, v)| (idx(k), v.0)).collect(); x.sort(); x };
+        let tv: Vec<(i32, u64)> = { let mut x: Vec<_> = s.timeout_views_cache.iter().filter(|(_, v)| v.0 >= cur).map(|(k, v)| (idx(k), v.0)).collect(); x.sort(); x };
+        let cq: Vec<(u64, Vec<(AVote, Vec<bool>)>)> = s.commit_qcs_cache.iter().filter(|(v, _)| v.0 >= cur).map(|(v, m)| (v.0, { let mut x: Vec<_> = m.iter().map(|(k, q)| (avote(k), q.signers.0.iter().collect::<Vec<bool>>())).collect(); x.sort(); x })).collect();
+        let tq: Vec<(u64, bftmsgs::ATqc)> = s.timeout_qcs_cache.iter().filter(|(v, _)| v.0 >= cur).map(|(v, q)| (v.0, atqc(q))).collect();
         format!("{}|{:?}|{:?}|{:?}|{:?}|{props:?}|{cv:?}|{tv:?}|{cq:?}|{tq:?}", s.view_number.0, s.phase, s.high_vote.as_ref().map(avote), s.high_commit_qc.as_ref().map(acqc), s.high_timeout_qc.as_ref().map(atqc))
     };
     let validator::ReplicaState::V2(d) = &l.durable;
@@ -167,6 +173,9 @@ pub fn alphabet(w: &World, r: usize, cfg: &L1Cfg) -> Vec<(String, Input)> {
                 if !cfg.full && n == 1 && v == 0 {
                     continue;
                 }
+                if cfg.narrow && (n != v.saturating_sub(1).min(1) || v == 0) {
+                    continue;
+                }
                 cqs.push((format!("CQ(v{v},b{n},{pn})"), w.commit_qc(&w.commit_vote(v, n, p), full_mask)));
             }
         }
@@ -175,10 +184,12 @@ pub fn alphabet(w: &World, r: usize, cfg: &L1Cfg) -> Vec<(String, Input)> {
     for v in 0..=vmax {
         let all = |t: &v2::ReplicaTimeout| env.iter().map(|i| (*i, t.clone())).collect::<Vec<_>>();
         tqs.push((format!("TQ(v{v},plain)"), w.timeout_qc(v, &all(&w.timeout_vote(v, None, None)))));
-        if v >= 1 {
+        if v >= 1 && !(cfg.narrow && v > 1) {
             tqs.push((format!("TQ(v{v},highvote b0 X)"), w.timeout_qc(v, &all(&w.timeout_vote(v, Some(w.commit_vote(v, 0, &px)), None)))));
             let hq = w.commit_qc(&w.commit_vote(v - 1, 0, &px), full_mask);
-            tqs.push((format!("TQ(v{v},highqc b0 X)"), w.timeout_qc(v, &all(&w.timeout_vote(v, None, Some(hq.clone()))))));
+            if !cfg.narrow {
+                tqs.push((format!("TQ(v{v},highqc b0 X)"), w.timeout_qc(v, &all(&w.timeout_vote(v, None, Some(hq.clone()))))));
+            }
             if cfg.full {
                 tqs.push((format!("TQ(v{v},highvote b0 Y)"), w.timeout_qc(v, &all(&w.timeout_vote(v, Some(w.commit_vote(v, 0, &py)), None)))));
                 tqs.push((format!("TQ(v{v},highvote b1 X + highqc b0 X)"), w.timeout_qc(v, &all(&w.timeout_vote(v, Some(w.commit_vote(v, 1, &px)), Some(hq.clone()))))));
@@ -475,6 +486,10 @@ pub fn coverage_json(res: &L1Result, cfg: &L1Cfg, rule: &str) -> serde_json::Val
 
 /// Re-executes a path of input descriptions from the initial state; returns the first violation.
 pub fn replay_path(w: &World, r: usize, cfg: &L1Cfg, path: &[String]) -> Result<Option<String>, String> {
+    replay_path_with(w, r, cfg, path, &|_| vec![])
+}
+
+pub fn replay_path_with(w: &World, r: usize, cfg: &L1Cfg, path: &[String], check_edge: &dyn Fn(&Edge) -> Vec<(String, String)>) -> Result<Option<String>, String> {
     let alpha = alphabet(w, r, cfg);
     let env: Vec<usize> = (0..w.n()).filter(|i| *i != r).collect();
     let full_mask: u32 = env.iter().fold(0, |m, i| m | 1 << i);
@@ -493,8 +508,32 @@ pub fn replay_path(w: &World, r: usize, cfg: &L1Cfg, path: &[String]) -> Result<
             }
             None => (d.clone(), None),
         };
-        let Some((_, input)) = alpha.iter().find(|(n, _)| *n == base) else { return Err(format!("step {k}: input '{base}' is not in the alphabet of this tier")) };
-        let out = bftsim::step(w, r, &local, input, &Policy { crash, sync: sync_pool.clone() });
+        let alpha_n;
+        let found = match alpha.iter().find(|(n, _)| *n == base) {
+            Some(x) => x,
+            None => {
+                // the path may come from the other pass (narrow / wide alphabet)
+                let c2 = L1Cfg { narrow: !cfg.narrow, full: true, max_view: cfg.max_view, crashes: cfg.crashes, flood: true, max_states: cfg.max_states, deadline: cfg.deadline, seed: cfg.seed };
+                alpha_n = alphabet(w, r, &c2);
+                match alpha_n.iter().find(|(n, _)| *n == base) {
+                    Some(x) => x,
+                    None => return Err(format!("step {k}: input '{base}' is not in the alphabet of this tier")),
+                }
+            }
+        };
+        let input = &found.1;
+        let pol = Policy { crash, sync: sync_pool.clone() };
+        let out = bftsim::step(w, r, &local, input, &pol);
+        {
+            let node = Node { local: local.clone(), log: log.clone(), depth: k as u32, path: vec![] };
+            let kind = InputKind::Step(input.clone(), pol.clone());
+            let mut l2 = log.clone();
+            let _ = update_log(w, r, &mut l2, &out.sent);
+            let vs = check_edge(&Edge { from: &node, input_desc: d, input: &kind, out: &out, to_log: &l2 });
+            if let Some((kk, vv)) = vs.into_iter().next() {
+                return Ok(Some(format!("[{kk}] {vv} (at step {k})")));
+            }
+        }
         println!("  step {k}: {d}\n      -> {} | view {} phase {:?} | sent: {}", outcome_class(&out), out.local.snap.view_number.0, out.local.snap.phase, out.sent.iter().map(|m| bftmsgs::describe(w, m)).collect::<Vec<_>>().join("; "));
         if let Some(v) = update_log(w, r, &mut log, &out.sent) {
             return Ok(Some(format!("{v} (at step {k}: {d})")));
